@@ -111,24 +111,19 @@ def inverse_circuit(tableau):
     n_qubits = tableau.n_qubits
     tableau = canonical_form(tableau)
 
-    # Hadamard block
+    # Hadamard block: after the canonical form the X block is in reduced echelon form. A Hadamard on every column
+    # without an X pivot makes the X block invertible; reducing it again turns it into the identity, i.e. every
+    # generator j has an X or Y on qubit j and only I or Z elsewhere.
+    x_pivot_columns = []
+    for row_i in range(n_qubits):
+        nonzero_x = np.nonzero(tableau.x_matrix[row_i])[0]
+        if len(nonzero_x) > 0:
+            x_pivot_columns.append(nonzero_x[0])
     for j in range(n_qubits):
-        pivot[1] = j
-        x_list, y_list, z_list = pauli_type_finder(
-            tableau.x_matrix, tableau.z_matrix, pivot
-        )
-        if x_list:
-            tableau = tab_row_swap(tableau, pivot[0], x_list[0])
-        elif y_list:
-            tableau = tab_row_swap(tableau, pivot[0], y_list[0])
-        elif z_list:
-            tableau = tab_row_swap(tableau, pivot[0], z_list[-1])
-            if np.any(tableau.x_matrix[pivot[0], j + 1 : n_qubits]) or np.any(
-                tableau.z_matrix[pivot[0], j + 1 : n_qubits]
-            ):
-                circuit_list.append(("H", j))
-                tableau = transform.hadamard_gate(tableau, j)
-        pivot[0] = pivot[0] + 1
+        if j not in x_pivot_columns:
+            circuit_list.append(("H", j))
+            tableau = transform.hadamard_gate(tableau, j)
+    tableau = canonical_form(tableau)
     # CNOT block
     for j in range(n_qubits):
         for k in range(j + 1, n_qubits):
